@@ -134,14 +134,17 @@ def self_test(base, wl, sc, tier, log):
         seen = set()
         for stepi, iid, dg in [e[:3] for e in a['ref_digests']]:
             call = j['steps'][stepi]['call']
-            key = (iid, json.dumps(call['options']), call.get('param'))
+            spec = call
+            if call['kind'] == 'steps':
+                spec = next(m for m in call['mols'] if m['input'] == iid)
+            key = (iid, json.dumps(spec['options']), spec.get('param'))
             if key in seen:
                 continue
             seen.add(key)
             inp = j['inputs'][iid]
             reqs.append(({'seed': j['seed'], 'oneshot': {
-                'pure': True, 'text': inp['text'], 'stem': inp['stem'], 'options': call['options'],
-                'param_text': j['params'].get(call.get('param')) if call.get('param') else None,
+                'pure': True, 'text': inp['text'], 'stem': inp['stem'], 'options': spec['options'],
+                'param_text': j['params'].get(spec.get('param')) if spec.get('param') else None,
                 'suffix': call.get('suffix', '.pdb')}}, dg))
     reqs = reqs[:want]
     outs = driver.pool_map(lambda r: driver.run_job(r[0], sc, hashseed=0), reqs)
